@@ -173,7 +173,10 @@ def gen_bounds(rng, ndim, iso, wild=False):
             choices = [(2.0, 4.0), (1.0, NAN), (NAN, 6.0), (0.5, 16.0)]
         if wild:
             choices += [0.0, -1.0, (2.0, 1.0), (-1.0, -2.0), NAN, (NAN, NAN), (INF, INF), 1e6, (1e-3, 1e-3)]
-        b[k] = rng.choice(choices)
+        v = rng.choice(choices)
+        if v == (INF, INF) and not k.endswith(('_abs', '_rel')):
+            v = (NAN, NAN)   # an absolute box [inf, inf] admits no finite value: outside the property (argument error)
+        b[k] = v
     return b
 
 
@@ -302,6 +305,9 @@ def table_of(c):
     f = pd.DataFrame(data, index=list(c['index']))
     if c.get('frame_col') is not None:
         f['frame'] = c['frame_col']
+    if c.get('prior_cost'):
+        # the table returned by an earlier refine_leastsq call (chained refinement): it already carries a finite cost
+        f['cost'] = [0.0123 * (i + 1) for i in range(len(f))]
     if c.get('foreign'):
         f['mass'] = [float(i) * 1.5 for i in range(len(f))]
         f['tag'] = ['t%d' % i for i in range(len(f))]
@@ -454,6 +460,7 @@ def finish_table(rng, c):
     if rng.random() < 0.25:
         c['frame_col'] = rng.choice([0, 3, 7])
     c['foreign'] = rng.random() < 0.3
+    c['prior_cost'] = rng.random() < 0.35
     if rng.random() < 0.15:      # background column absent -> FitFunctions.default 0.0
         c['extra_param_cols'] = c['extra_param_cols'][:-1]
         c['rows'] = [r_[:-1] for r_ in c['rows']]
